@@ -368,13 +368,17 @@ def evaluate_field_op(req, store):
     if kind == "f_create":
         spec = GRIDS[FIELD_GRIDS[req["g"] % len(FIELD_GRIDS)]]
         grid = build_grid(spec)
-        data = _data(spec, 0, req["seed"], req["dtype"])
-        fields.append(pde.ScalarField(grid, data, dtype=data.dtype))
+        rank = int(req.get("rank", 0))
+        data = _data(spec, rank, req["seed"], req["dtype"])
+        cls = [pde.ScalarField, pde.VectorField, pde.Tensor2Field][rank]
+        fields.append(cls(grid, data, dtype=data.dtype))
         return [np.array(fields[-1].data)]
     if kind == "f_fresh_interp":
         spec = GRIDS[req["gridi"]]
         grid = build_grid(spec)
-        f = pde.ScalarField(grid, dtype=req["full"].dtype)
+        rank = req["full"].ndim - grid.num_axes
+        cls = [pde.ScalarField, pde.VectorField, pde.Tensor2Field][rank]
+        f = cls(grid, dtype=req["full"].dtype)
         f._data_full[...] = req["full"]
         return [_interp(f, spec, req)]
     if kind == "f_write_coll":
@@ -410,6 +414,8 @@ def evaluate_field_op(req, store):
         return [np.array(g.data)]
     if kind == "f_insert":
         pt = _points(f.grid, req)[0]
+        if f.rank > 0:
+            return [np.array(f.data)]  # insertion is defined for scalar amounts here
         f.insert(pt, req["value"])
         return [np.array(f.data)]
     raise ValueError(kind)
@@ -530,12 +536,15 @@ class RequestHistory(History):
 def field_op_strategy(h):
     n = len(h.grid_of)
     create = st.fixed_dictionaries({"kind": st.just("f_create"), "g": st.integers(0, len(FIELD_GRIDS) - 1),
-                                    "seed": st.integers(0, 5), "dtype": st.sampled_from(["f8", "f8", "c16"])})
+                                    "seed": st.integers(0, 5), "dtype": st.sampled_from(["f8", "f8", "c16"]),
+                                    "rank": st.sampled_from([0, 0, 1, 2])})
     if n == 0:
         return create
     i = st.integers(0, n - 1)
     val = st.sampled_from([0.0, 1.0, -2.5, 7.0])
+    repeat = [st.sampled_from(h.interp_reqs[-4:])] * 2 if h.interp_reqs else []
     return st.one_of(
+        *repeat,
         create,
         st.fixed_dictionaries({"kind": st.just("f_interp"), "i": i, "pseed": st.integers(0, 3), "bc": st.booleans(),
                                "fill": st.sampled_from([None, None, -1, -2, 0.0, -1.0, 2.5])}),
@@ -565,6 +574,7 @@ class FieldHistory(History):
         if r[0] != "ok":
             raise HarnessError(f"cannot start history: {r}")
         self.grid_of = []  # pool index of the grid of field i
+        self.interp_reqs = []  # earlier interpolation requests (repeated verbatim later on)
         self.interp_after_relink = False
         self.relinked = set()
         self.kinds = []
@@ -589,6 +599,8 @@ class FieldHistory(History):
                 raise Violation(f"{kind} raised {h[1]['type']}: {h[1]['text']}", key=f"{kind}:error")
             return
         i = req["i"] % len(self.grid_of)
+        if req not in self.interp_reqs:
+            self.interp_reqs.append(dict(req))
         snap = self.z.call("hstep", {"kind": "snapshot", "i": i})
         if snap[0] != "ok":
             raise HarnessError(f"snapshot failed: {snap}")
